@@ -108,7 +108,7 @@ def generated_dir():
         return _generated_dir[0]
     import subprocess
     import fcntl
-    d = os.path.join(os.path.dirname(os.path.dirname(os.path.abspath(__file__))), 'build', 'generated')
+    d = os.path.join(os.environ.get('VP_BUILD') or os.path.join(os.path.dirname(os.path.dirname(os.path.abspath(__file__))), 'build'), 'generated')
     os.makedirs(d, exist_ok=True)
     with open(os.path.join(d, '.lock'), 'w') as lock:
         fcntl.flock(lock, fcntl.LOCK_EX)
@@ -376,7 +376,7 @@ class Rules:
         n_f = 0
         pos = 0
         while True:
-            m = re.compile(r'\bwhile\s*\(\s*((?:const\s+)?[A-Za-z_]\w*(?:\s*\*)?)\s+([A-Za-z_]\w*)\s*=(?!=)').search(text, pos)
+            m = re.compile(r'\bwhile\s*\(\s*((?:const\s+)?[A-Za-z_]\w*(?:\s*\*\s*|\s+))([A-Za-z_]\w*)\s*=(?!=)').search(text, pos)
             if not m:
                 break
             po = text.index('(', m.start())
@@ -418,7 +418,7 @@ class Rules:
         # R14: if (T x = e) S [else S']  ->  { T x = e; if (x) S [else S'] }
         n_f = 0
         pos = 0
-        rx = re.compile(r'\bif\s*\(\s*((?:const\s+)?[A-Za-z_]\w*(?:\s*\*)?)\s+([A-Za-z_]\w*)\s*=(?!=)')
+        rx = re.compile(r'\bif\s*\(\s*((?:const\s+)?[A-Za-z_]\w*(?:\s*\*\s*|\s+))([A-Za-z_]\w*)\s*=(?!=)')
         while True:
             m = rx.search(text, pos)
             if not m:
